@@ -304,7 +304,15 @@ fn loco_sequence(ctx: &mut Ctx, rng: &mut Rng) -> (bool, bool) {
         let (name, opt_name, r): (&str, String, anyhow::Result<()>) = match call {
             0 | 1 => {
                 let m = if rng.chance(0.1) { None } else { Some(rng.lrange(80e3, 250e3)) };
-                ("set_mass", format!("{}", if m.is_some() { "Some" } else { "None" }), l.set_mass(m.map(|x| uc::KG * x), MassSideEffect::None))
+                let r = l.set_mass(m.map(|x| uc::KG * x), MassSideEffect::None);
+                if let (Ok(()), Some(mv)) = (&r, m) {
+                    // an accepted set_mass(Some(m)) makes m the reported mass
+                    let a = lview(&l);
+                    if !matches!(a.mass, Ok(Some(got)) if close(got, mv, 1e-12, 0.0)) {
+                        ctx.violate("mass_is_argument", "C20:Locomotive:mass_is_argument", format!("set_mass(Some({mv})) was accepted but mass() reports {:?}", a.mass), json!({"log": log}));
+                    }
+                }
+                ("set_mass", format!("{}", if m.is_some() { "Some" } else { "None" }), r)
             }
             2 => ("set_mass", "Extensive(not allowed)".into(), l.set_mass(Some(uc::KG * 1e5), MassSideEffect::Extensive)),
             3 | 4 | 5 => {
@@ -428,7 +436,7 @@ fn consist_and_train(ctx: &mut Ctx, rng: &mut Rng) {
         fsum += f;
         locos.push(l);
     }
-    let con = Consist::new(locos, None, Default::default());
+    let mut con = Consist::new(locos, None, Default::default());
     ctx.count("obs.consists");
     match con.mass() {
         Ok(m) => {
@@ -452,6 +460,24 @@ fn consist_and_train(ctx: &mut Ctx, rng: &mut Rng) {
             }
         }
         Err(e) => ctx.violate("consist_force_is_sum", "C20:Consist:force_errors", format!("consist force_max() errors: {e:#}"), json!({})),
+    }
+    // a unit updated in place (accepted setter on a member of the consist): the consist's force is the sum again
+    {
+        let k = rng.usize(0, n - 1);
+        let f_new = rng.lrange(2e5, 9e5);
+        let f_old = con.loco_vec[k].force_max().map(|f| f.value).unwrap_or(f64::NAN);
+        if con.loco_vec[k].set_force_max(uc::N * f_new, ForceMaxSideEffect::SetMuToNone).is_ok() {
+            ctx.count("obs.consist_units_updated_in_place");
+            let want = fsum - f_old + f_new;
+            match con.force_max() {
+                Ok(f) => {
+                    if !close(f.value, want, 1e-12, 0.0) {
+                        ctx.violate("consist_force_is_sum", "C20:Consist:force_ne_sum_after_unit_update", format!("after set_force_max on unit {k}: consist force_max {} != sum over units {want}", f.value), json!({"units": n}));
+                    }
+                }
+                Err(e) => ctx.violate("consist_force_is_sum", "C20:Consist:force_errors", format!("consist force_max() errors after a unit update: {e:#}"), json!({})),
+            }
+        }
     }
     // train static mass = cars (or override) + consist
     let spec = gt::train(rng, &[TrainType::Freight], 2000.0, 0.0);
